@@ -4,10 +4,52 @@ import pcheck
 SPECS = {
     "C01": pcheck.PSpec(
         "C01",
-        clauses=["Accepts", "RowsMatch", "SpuriousFault"],
+        clauses=["Accepts", "RowsMatch", "SpuriousFault", "Compiles", "BookingFault"],
         profiles={"quick": [("MCQueryGen_core.cfg", None)],
                   "thorough": [("MCQueryGen_core_t.cfg", None)]},
         cap={"quick": 900, "thorough": 12000},
+    ),
+    "C02": pcheck.PSpec(
+        "C02",
+        clauses=["PackageComplete", "NoResidualDirective", "Compiles", "BookingFault", "OneTree"],
+        profiles={"quick": [("MCQueryGen_core.cfg", None), ("MCQueryGen_schema.cfg", None)],
+                  "thorough": [("MCQueryGen_core_t.cfg", None), ("MCQueryGen_schema_t.cfg", None)]},
+        events={"quick": 3, "thorough": 3},
+        cap={"quick": 1500, "thorough": 12000},
+        nontrivial="translated",
+    ),
+    "C03": pcheck.PSpec(
+        "C03",
+        clauses=["SchemaMatches", "StorageDistinct", "DescriptorMatches", "Accepts", "Refuses", "RowsMatch", "Compiles", "BookingFault"],
+        profiles={"quick": [("MCQueryGen_schema.cfg", None)],
+                  "thorough": [("MCQueryGen_schema_t.cfg", None)]},
+        events={"quick": 6, "thorough": 12},
+        cap={"quick": 1200, "thorough": 12000},
+    ),
+    "C04": pcheck.PSpec(
+        "C04",
+        clauses=["FaultMissed", "SpuriousFault", "RowsMatch", "Accepts", "Compiles", "BookingFault"],
+        profiles={"quick": [("MCQueryGen_fault.cfg", None)],
+                  "thorough": [("MCQueryGen_fault_t.cfg", None)]},
+        events={"quick": 16, "thorough": 40},
+        cap={"quick": 900, "thorough": 12000},
+    ),
+    "C05": pcheck.PSpec(
+        "C05",
+        clauses=["RowsMatch", "SpuriousFault", "FaultMissed", "Compiles", "BookingFault"],
+        profiles={"quick": [("MCQueryGen_core_s.cfg", None)],
+                  "thorough": [("MCQueryGen_core.cfg", None)]},
+        events={"quick": 8, "thorough": 16},
+        seq_mode="histories",
+        cap={"quick": 600, "thorough": 6000},
+    ),
+    "C13": pcheck.PSpec(
+        "C13",
+        clauses=["Accepts", "RowsMatch", "SchemaMatches", "SpuriousFault", "Compiles", "BookingFault"],
+        profiles={"quick": [("MCQueryGen_arithtable.cfg", None), ("MCQueryGen_arith.cfg", None)],
+                  "thorough": [("MCQueryGen_arithtable.cfg", None), ("MCQueryGen_arith.cfg", None)]},
+        events={"quick": 8, "thorough": 16},
+        cap={"quick": 1500, "thorough": 20000},
     ),
 }
 
